@@ -34,6 +34,9 @@ from crosshair.util import (
 
 from vlib.cond import Cond, enc_args
 
+import os
+
+NSAMPLES = int(os.environ.get('VERIF_SAMPLES', '3'))
 MAX_RECORDED = 6  # failing paths recorded per condition (distinct kind@site first)
 
 
@@ -93,7 +96,7 @@ def explore(cond: Cond, timeout: float, seed: int = 0, classify=lambda f: None) 
                     if ret is None:
                         status = VerificationStatus.CONFIRMED
                         st["confirmed"] += 1
-                        if len(samples) < 3:
+                        if len(samples) < NSAMPLES:
                             with ResumedTracing():
                                 space.detach_path()
                                 samples.append(_safe_enc(deep_realize(dict(pre_args.arguments))))
